@@ -1484,7 +1484,8 @@ impl<S: BitmapSlice + Send + Sync> FileSystem for PassthroughFs<S> {
         whence: u32,
     ) -> io::Result<u64> {
         // Let the Arc<HandleData> in scope, otherwise fd may get invalid.
-        let data = self.handle_map.get(handle, inode)?;
+        // In no_open mode there is no handle, work on a temporary file like read() does.
+        let data = self.get_data(handle, inode, libc::O_RDONLY)?;
 
         // Acquire the lock to get exclusive access, otherwise it may break do_readdir().
         let (_guard, file) = data.get_file_mut();
